@@ -210,6 +210,11 @@ func revisionVariant(r *rand.Rand, m *gen.Module) item {
 	}
 	c := *m
 	c.Revisions = append(append([]string{}, m.Revisions...), rev)
+	if rev < "2020" {
+		// an EARLIER revision: it must not also carry the later revision statements of m, or its
+		// latest revision - what names it - would be m's, and the text a duplicate of m
+		c.Revisions = []string{rev}
+	}
 	body := cloneNode(m.Body)
 	switch r.Intn(4) {
 	case 0:
@@ -669,6 +674,12 @@ func genSubRevHistory(r *rand.Rand, maxLen int) History {
 			sA.Body.Kids = append(sA.Body.Kids, nd("leaf", "st", nd("type", "tt")))
 		}
 		if some() {
+			// typedefs are resolved in every run for every text ever accepted, also for a module
+			// that a later revision displaced
+			sA.Body.Kids = append(sA.Body.Kids, nd("typedef", "sx", nd("type", "tt")),
+				nd("typedef", "su", nd("type", "union", nd("type", "tt"), nd("type", "boolean"))))
+		}
+		if some() {
 			sA.Body.Kids = append(sA.Body.Kids, nd("identity", "si", nd("base", "ti")),
 				nd("leaf", "sir", nd("type", "identityref", nd("base", "si"))))
 		}
@@ -715,6 +726,36 @@ func genSubRevHistory(r *rand.Rand, maxLen int) History {
 	default:
 		sB.Body.Kids = append(sB.Body.Kids, nd("container", "from-s", nd("leaf", "y", str())))
 	}
+	// one time in three it is the OWNER that is displaced: m has no revision, its typedefs need
+	// what its include chain (m -> s -> t) and its import bring, and a revision of m arrives after a
+	// Process (or, mirrored, the revision is there first and the unrevisioned text arrives late)
+	ownerDisplaced := r.Intn(3) == 0
+	var mLate *item
+	if ownerDisplaced {
+		if useInc {
+			m.Body.Kids = append(m.Body.Kids, nd("typedef", "mx", nd("type", "tt")),
+				nd("typedef", "my", nd("type", "mx", nd("range", "1..100"))),
+				nd("leaf", "ml", nd("type", "my")))
+			if some() {
+				m.Body.Kids = append(m.Body.Kids, nd("typedef", "mi", nd("type", "identityref", nd("base", "ti"))))
+			}
+			if some() {
+				m.Body.Kids = append(m.Body.Kids, nd("typedef", "mr", nd("type", "leafref", nd("path", "../top/a"))))
+			}
+		}
+		if useImp {
+			m.Imports = append(m.Imports, lib)
+			m.ImportPrefix[lib] = "lib"
+			m.Body.Kids = append(m.Body.Kids, nd("typedef", "mu", nd("type", "union", nd("type", "lib:lt"), nd("type", "string"))),
+				nd("container", "viaimp", nd("uses", "lib:lg")))
+		}
+		mB := &gen.Module{Name: "m", Prefix: "m", Namespace: "urn:m", Revisions: []string{"2021-05-05"}, ImportPrefix: map[*gen.Module]string{},
+			Body: nd("module", "m", nd("container", "top", nd("leaf", "a", str()), nd("leaf", "b", str())))}
+		if r.Intn(3) == 0 {
+			mB.Includes = append(mB.Includes, sA) // the revision still includes s
+		}
+		mLate = &item{name: "m@2021-05-05.yang", text: mB.Text(), mod: mB, variant: true, pre: "process"}
+	}
 	sAName := "s.yang"
 	if len(sA.Revisions) > 0 {
 		sAName = "s@" + sA.Revisions[0] + ".yang"
@@ -735,6 +776,26 @@ func genSubRevHistory(r *rand.Rand, maxLen int) History {
 	}
 	if useImp {
 		origin += "+own-import"
+	}
+	if ownerDisplaced {
+		origin += "+owner-displaced"
+		if r.Intn(4) == 0 {
+			// mirrored: the revision first, the unrevisioned text late (it is displaced from the start)
+			for i := range first {
+				if first[i].name == "m.yang" {
+					late := first[i]
+					late.pre = "process"
+					first[i] = *mLate
+					first[i].pre = ""
+					return buildOps(r, append(first, late), maxLen, origin+"+mirrored")
+				}
+			}
+		}
+		items := append(first, *mLate)
+		if r.Intn(3) == 0 {
+			items = append(items, item{name: "s@" + rev + ".yang", text: sB.Text(), mod: sB, variant: true, pre: "process"})
+		}
+		return buildOps(r, items, maxLen, origin)
 	}
 	items := append(first, item{name: "s@" + rev + ".yang", text: sB.Text(), mod: sB, variant: true, pre: "process"})
 	if maxLen >= 12 && r.Intn(3) == 0 {
